@@ -679,6 +679,8 @@ class BuiltinMixin:
                 return hook(self, pkt)
             if len(pkt.t.layers) >= 2:
                 sc = self.pkt_schema(pkt.t.layers[1])
+                if sc.pyclass is None and sc.extclass:
+                    return Py('ext', sc.extclass)
                 ci = self.prog.cls(*sc.pyclass)
                 return Py('class', ci.qualname, ci)
             raise Unsupported('guess_payload_class of a packet without payload layer')
